@@ -1,13 +1,14 @@
 SPECIFICATION Spec
 CONSTANTS
-  SingleClasses = {"empty", "zero", "neg1", "one", "typical", "huge", "nonnum", "float", "inf", "wrongsep", "brokenlist"}
+  SingleClasses = {"empty", "zero", "neg1", "one", "typical", "huge", "nonnum", "float", "inf", "wrongsep", "brokenlist", "tickedge"}
   PairClasses = {"zero", "neg1", "huge"}
   PairTails = {"mpd"}
   PatchClasses = {"zero", "neg1", "huge", "nonnum", "typical"}
-  LLTails = {"mpd", "vnum", "anum", "num_huge"}
+  LLTails = {"mpd", "vnum", "anum", "vtime", "num_huge"}
   EarlyClasses = {"zero", "neg1", "one", "typical", "huge"}
   EarlyPairClasses = {"typical"}
   EarlyTails = {"mpd", "anum"}
   TripleClasses = {"zero", "neg1", "one", "typical", "huge"}
   TripleTails = {"mpd", "anum"}
+  SeqMethods = {"PUT"}
 INVARIANTS TypeOK Sane Emit
